@@ -11,6 +11,10 @@ func funcComputedCompute(ctx *Context, this *VMValue, params []*VMValue) *VMValu
 }
 
 func funcArrayKeepLow(ctx *Context, this *VMValue, params []*VMValue) *VMValue {
+	if params[0].TypeId != VMTypeInt {
+		ctx.Error = errors.New("(arr.kl)类型错误: 参数必须为int")
+		return nil
+	}
 	isAllInt, ret := this.ArrayFuncKeepLow(ctx, params[0].MustReadInt())
 	if isAllInt {
 		return NewIntVal(IntType(ret))
@@ -20,6 +24,10 @@ func funcArrayKeepLow(ctx *Context, this *VMValue, params []*VMValue) *VMValue {
 }
 
 func funcArrayKeepHigh(ctx *Context, this *VMValue, params []*VMValue) *VMValue {
+	if params[0].TypeId != VMTypeInt {
+		ctx.Error = errors.New("(arr.kh)类型错误: 参数必须为int")
+		return nil
+	}
 	isAllInt, ret := this.ArrayFuncKeepHigh(ctx, params[0].MustReadInt())
 	if isAllInt {
 		return NewIntVal(IntType(ret))
@@ -75,6 +83,10 @@ func funcArrayShuttle(ctx *Context, this *VMValue, params []*VMValue) *VMValue {
 
 func funcArrayRand(ctx *Context, this *VMValue, params []*VMValue) *VMValue {
 	arr, _ := this.ReadArray()
+	if len(arr.List) == 0 {
+		ctx.Error = errors.New("(arr.rand)值错误: 不能从空数组中随机取值")
+		return nil
+	}
 	return arr.List[ctxRandIntn(ctx, len(arr.List))]
 }
 
@@ -85,6 +97,10 @@ func funcArrayRandSize(ctx *Context, this *VMValue, params []*VMValue) *VMValue 
 	arr, _ = newArr.ReadArray()
 
 	if val, ok := params[0].ReadInt(); ok {
+		if val < 0 || val > IntType(len(arr.List)) {
+			ctx.Error = errors.New("(arr.randSize)值错误: 个数超出数组范围")
+			return nil
+		}
 		arr.List = arr.List[:val]
 		return newArr
 	} else {
